@@ -283,7 +283,7 @@ def classify_report(stderr, rc, unit_name):
     if m:
         block = stderr[m.start():m.start() + 12000]
         return 'asan:' + m.group(1), unit_name in block, block.split('\n')[0][:200]
-    m = re.search(r'^(\S*?)([^/\s:]+\.c(?:pp)?):(\d+):\d+: runtime error: (.*)$', stderr, re.M)
+    m = re.search(r'^(\S*?)([^/\s:]+\.(?:c|cpp|h)):(\d+):\d+: runtime error: (.*)$', stderr, re.M)
     if m:
         msg = m.group(4)
         kind = 'other'
@@ -295,7 +295,9 @@ def classify_report(stderr, rc, unit_name):
             if pat in msg:
                 kind = k
                 break
-        return 'ubsan:' + kind, unit_name in m.group(2), ('%s:%s: %s' % (m.group(2), m.group(3), msg))[:200]
+        # a report located in a header (e.g. Py_DECREF in object.h) is attributed through its stack trace
+        return ('ubsan:' + kind, unit_name in m.group(2) or unit_name in stderr[m.end():m.end() + 4000],
+                ('%s:%s: %s' % (m.group(2), m.group(3), msg))[:200])
     if rc is not None and rc < 0:
         return 'crash:sig%d' % (-rc), True, 'killed by signal %d' % (-rc)
     return 'exit:%s' % rc, True, 'child exited with status %s: %s' % (rc, stderr[-300:].replace('\n', ' | '))
